@@ -107,7 +107,9 @@ static void gen_mul(const GenCtx &ctx, Case &c, int viewpct) {
   }
   if (r == "_mzd_mul_naive" || r == "_mzd_mul_va" || r == "_mzd_mul_m4rm") c.set("clear", g::coin(2, 3));
   bool acc = rt->acc || c.i("clear", 1) == 0;
-  bool must_give = acc || r[0] == '_' || r == "djb";
+  // mzd_addmul and mzd_addmul_mp allocate a zero C themselves when handed NULL
+  bool null_ok_acc = (r == "mzd_addmul" || r == "mzd_addmul_mp") && c.i("clear", 1) != 0;
+  bool must_give = (acc && !null_ok_acc) || r[0] == '_' || r == "djb";
   if (r == "djb") return;
   if (must_give || g::coin(3, 5)) {
     c.sets("C.dst", "given");
